@@ -193,6 +193,9 @@ fn main() {
                 o.skipped
             );
         }
+        for &(k, v, per_cfg) in &o.digest {
+            let _ = writeln!(out, "{{\"t\":\"digest\",\"i\":{idx},\"k\":\"{k:x}\",\"v\":\"{v:x}\",\"per_config\":{per_cfg}}}");
+        }
         shard.absorb(&o);
     }
     let mut distinct = shard.fps.clone();
@@ -210,7 +213,7 @@ fn main() {
     let samples: Vec<String> = shard.samples.iter().map(|s| jstr(s)).collect();
     let _ = writeln!(
         out,
-        "{{\"t\":\"summary\",\"prop\":{},\"seed\":{seed},\"lo\":{lo},\"hi\":{hi},\"cases\":{},\"skipped\":{},\"comparisons\":{},\"nontrivial\":{},\"distinct_nontrivial\":{},\"viol_cases\":{},\"known_cases\":{},\"feats\":{},\"samples\":[{}]}}",
+        "{{\"t\":\"summary\",\"prop\":{},\"seed\":{seed},\"lo\":{lo},\"hi\":{hi},\"cases\":{},\"skipped\":{},\"comparisons\":{},\"nontrivial\":{},\"distinct_nontrivial\":{},\"viol_cases\":{},\"known_cases\":{},\"feats\":{},\"sigs\":{},\"samples\":[{}]}}",
         jstr(&prop),
         shard.cases,
         shard.skipped,
@@ -220,6 +223,7 @@ fn main() {
         shard.viol_cases,
         shard.known_cases,
         shard.feats_json(),
+        shard.sigs_json(),
         samples.join(",")
     );
     let _ = out.flush();
